@@ -14,3 +14,104 @@ def coq_z(n):
 
 def coq_list(items):
     return '[' + '; '.join(items) + ']'
+
+
+# ---- generic vm_compute cross-check for "case <id> <stack>" blocks ----
+def coq_str(hexs):
+    return coq_bytes(hexs)
+
+def coq_nat(n):
+    return '%d%%nat' % int(n)
+
+def coq_stack(desc):
+    """mem | ro(S) | bp:<hex>(S) | re:<n>(S) | cow(S,S) | cache:<dur>(S,S)"""
+    pos = [0]
+    def ident():
+        st = pos[0]
+        while pos[0] < len(desc) and desc[pos[0]] not in '(),':
+            pos[0] += 1
+        return desc[st:pos[0]]
+    def expr():
+        i = ident()
+        if i == 'mem':
+            return 'SMem'
+        assert desc[pos[0]] == '('
+        pos[0] += 1
+        kids = [expr()]
+        while desc[pos[0]] == ',':
+            pos[0] += 1
+            kids.append(expr())
+        assert desc[pos[0]] == ')'
+        pos[0] += 1
+        kind, _, arg = i.partition(':')
+        if kind == 'ro':
+            return '(SReadOnly %s)' % kids[0]
+        if kind == 'bp':
+            return '(SBasePath %s %s)' % (coq_bytes(arg), kids[0])
+        if kind == 're':
+            return '(SRegexp %s %s)' % (coq_nat(arg), kids[0])
+        if kind == 'cow':
+            return '(SCow %s %s)' % (kids[0], kids[1])
+        if kind == 'cache':
+            return '(SCache %s %s %s)' % (coq_z(arg), kids[0], kids[1])
+        raise ValueError(i)
+    return expr()
+
+def coq_tgt(t):
+    return '[]' if t == '.' else '[' + ';'.join(coq_nat(c) for c in t) + ']'
+
+def coq_op(t):
+    n, a = t[0], t[1:]
+    S, Zs, Ns = coq_bytes, coq_z, coq_nat
+    m = {
+        'Create': lambda: 'Create %s' % S(a[0]),
+        'Mkdir': lambda: 'Mkdir %s %s' % (S(a[0]), Zs(a[1])),
+        'MkdirAll': lambda: 'MkdirAll %s %s' % (S(a[0]), Zs(a[1])),
+        'Open': lambda: 'Open %s' % S(a[0]),
+        'OpenFile': lambda: 'OpenFile %s %s %s' % (S(a[0]), Zs(a[1]), Zs(a[2])),
+        'Remove': lambda: 'Remove %s' % S(a[0]),
+        'RemoveAll': lambda: 'RemoveAll %s' % S(a[0]),
+        'Rename': lambda: 'Rename %s %s' % (S(a[0]), S(a[1])),
+        'Stat': lambda: 'Stat %s' % S(a[0]),
+        'Chmod': lambda: 'Chmod %s %s' % (S(a[0]), Zs(a[1])),
+        'Chown': lambda: 'Chown %s %s %s' % (S(a[0]), Zs(a[1]), Zs(a[2])),
+        'Chtimes': lambda: 'Chtimes %s %s' % (S(a[0]), Zs(a[1])),
+        'HRead': lambda: 'HRead %s %s' % (Ns(a[0]), Zs(a[1])),
+        'HReadAt': lambda: 'HReadAt %s %s %s' % (Ns(a[0]), Zs(a[1]), Zs(a[2])),
+        'HWrite': lambda: 'HWrite %s %s' % (Ns(a[0]), S(a[1])),
+        'HWriteAt': lambda: 'HWriteAt %s %s %s' % (Ns(a[0]), S(a[1]), Zs(a[2])),
+        'HWriteString': lambda: 'HWriteString %s %s' % (Ns(a[0]), S(a[1])),
+        'HSeek': lambda: 'HSeek %s %s %s' % (Ns(a[0]), Zs(a[1]), Zs(a[2])),
+        'HTruncate': lambda: 'HTruncate %s %s' % (Ns(a[0]), Zs(a[1])),
+        'HClose': lambda: 'HClose %s' % Ns(a[0]),
+        'HReaddir': lambda: 'HReaddir %s %s' % (Ns(a[0]), Zs(a[1])),
+        'HReaddirnames': lambda: 'HReaddirnames %s %s' % (Ns(a[0]), Zs(a[1])),
+        'HStat': lambda: 'HStat %s' % Ns(a[0]),
+        'HName': lambda: 'HName %s' % Ns(a[0]),
+        'HSync': lambda: 'HSync %s' % Ns(a[0]),
+    }
+    return m[n]()
+
+def coq_item(line):
+    t = line.split(' ')
+    if t[0] == 'snap':
+        return 'ISnap %s' % coq_tgt(t[1])
+    if t[0] == 'index':
+        return 'IIndex %s' % coq_tgt(t[1])
+    slot = 'None' if t[1] == '-' else '(Some %s)' % coq_nat(t[1])
+    return 'IOp %s %s (%s)' % (coq_tgt(t[0]), slot, coq_op(t[2:]))
+
+FS_COQ_HEADER = '''From AF Require Import Lib.Bytes Lib.Path Lib.Ops Gen.Consts Model.MemFile Model.MemFs Model.Stack Model.Digest.
+Definition vm_ok (c : N * stack * list item * N) : bool :=
+  let '(_, k, its, expect) := c in N.eqb (case_digest k its) expect.
+Definition vm_id (c : N * stack * list item * N) : N := let '(i, _, _, _) := c in i.
+'''
+_fs_ids = {}
+def fs_coq_case(cid, lines, r):
+    """lines of a 'case <id> <stack>' block; r['D'][cid] = digest printed by the extracted runner"""
+    t = lines[0].split(' ')
+    if t[0] != 'case' or cid not in r.get('D', {}) or len(lines) > 45:
+        return None
+    i = _fs_ids.setdefault(cid, len(_fs_ids))
+    items = [coq_item(l) for l in lines[1:-1]]
+    return '(%d%%N, %s, [%s], %s%%N)' % (i, coq_stack(t[2]), ';\n   '.join(items), r['D'][cid])
